@@ -262,14 +262,14 @@ def message_or(what):
             else:
                 r.oblige(s, 'appended-to-the-session-key-packets/p%d' % pi, z3.BoolVal(len(sks) == 1 and sks[0] is other and len(ins) == 0))
         return r.result()
-    return Scenario(label, MSGC + '.__or__', gen, props=('C20', 'C03'))
+    return Scenario(label, MSGC + '.__or__', gen, props=('C20', 'C03', 'C04'))
 
 
 _base_scn_mo = scenarios
 
 
 def scenarios():
-    return _base_scn_mo() + [message_or(w) for w in ('literal', 'literal (second)', 'encrypted container', 'signature packet', 'signature', 'one-pass packet',
+    return _base_scn_mo() + [message_or(w) for w in ('literal', 'literal (second)', 'encrypted container', 'encrypted container (second)', 'signature packet', 'signature', 'one-pass packet',
                                                        'session key packet', 'marker', 'user id packet')]
 
 
